@@ -184,13 +184,15 @@ def handle (op : String) (args : List String) : Option String :=
     -- `compared` parts are equal iff equivalentCallFull (theorem equiv_iff_compared_meaning_eq);
     -- the ignored parts are compared directly.  Reply: verdict under the regenerated facts,
     -- verdict with the disabled lookup fixed, wf of both (core and struct tables), ignored kinds,
-    -- verdict of the first pass alone (call comparison without the struct definitions)
+    -- verdict of the first pass alone (call comparison without the struct definitions),
+    -- fuel adequate for both programs (hypothesis of sem_fuel_stable)
     let kinds := ignoredDiffKinds (meaning n fs fa).ignored (meaning n fs fb).ignored
     pure (" ".intercalate [boolStr (equivalentCallFull Gen.c15SelfCompare Gen.c15StructsCompared fa fb),
       boolStr (equivalentCallFull false Gen.c15StructsCompared fa fb),
       boolStr (a.wf && structsWf fa.structs), boolStr (b.wf && structsWf fb.structs),
       if kinds.isEmpty then "-" else ",".intercalate kinds,
-      boolStr (equivalentCall Gen.c15SelfCompare a b)])
+      boolStr (equivalentCall Gen.c15SelfCompare a b),
+      boolStr ((semCallO n a.tab a.call).isSome && (semCallO n b.tab b.call).isSome)])
   | "expequal", [a, b] => do
     let a ← parseAll exp a
     let b ← parseAll exp b
